@@ -19,7 +19,7 @@ ANCHORS = ['phylib.io.datasets:download_file', 'phylib.io.datasets:_check_md5_of
 RULE = ('A scripted HTTP server on 127.0.0.1 (real sockets, real `requests`) serves, per case, a scripted '
         'sequence of data responses and a checksum behaviour; the case also fixes the prior state of the '
         'target file. EVERY data script of length 1..3 over {good, corrupt, 404} x checksum {correct, wrong, '
-        'missing} x prior file {absent, valid, corrupt} = 351 cases (quick and thorough) + 24 cases with near-collision / truncated / empty / 150 KiB bodies and failing HEAD; plus 6 histories of 2-3 calls for the same url and path with the server and the local file changing in between; thorough adds random '
+        'missing} x prior file {absent, valid, corrupt} = 351 cases (quick and thorough) + 24 cases with near-collision / truncated / empty / 150 KiB / gzip-transfer-encoded bodies and failing or lying HEAD; plus 6 histories of 2-3 calls for the same url and path with the server and the local file changing in between; thorough adds random '
         'truncated / empty / 150 KiB multi-chunk bodies, failing HEAD requests and per-request checksum '
         'scripts. The monitor is the server request log (M5) + return/exception + final file bytes, judged '
         'against the retry state machine of the statement. non-trivial = distinct scripts whose first '
@@ -27,7 +27,7 @@ RULE = ('A scripted HTTP server on 127.0.0.1 (real sockets, real `requests`) ser
 EXHAUSTIVE = {'quick': True, 'thorough': True}
 EXHAUSTIVE_SCOPE = {'quick': 'all 351 scripted fault sequences of the quantifier',
                     'thorough': 'the same 351 plus sampled extended fault kinds'}
-FLOORS = {'quick': {'evaluations': 420, 'distinct_nontrivial': 200, 'monitors': {'M5.data_get': 300}},
+FLOORS = {'quick': {'evaluations': 430, 'distinct_nontrivial': 200, 'monitors': {'M5.data_get': 300}},
           'thorough': {'evaluations': 5000, 'distinct_nontrivial': 2000, 'monitors': {'M5.data_get': 3000}}}
 ASSUMPTIONS = ['loopback HTTP is available in the sandbox; proxies disabled via no_proxy',
                'when the checksum is unavailable only "an HTTP error raises" and "file = last body served" '
@@ -116,6 +116,15 @@ class Handler(BaseHTTPRequestHandler):
             return self._send(200, (h + '  file.bin\n').encode())
         if beh in ('404', 'exhausted'):
             return self._send(404 if beh == '404' else 500, b'error')
+        if sc.get('gzip') and 'gzip' in (self.headers.get('Accept-Encoding') or ''):
+            import gzip
+            z = gzip.compress(BODIES[beh])
+            self.send_response(200)
+            self.send_header('Content-Encoding', 'gzip')
+            self.send_header('Content-Length', str(len(z)))
+            self.end_headers()
+            self.wfile.write(z)
+            return
         self._send(200, BODIES[beh])
 
 
@@ -171,6 +180,8 @@ def run_shard(desc, ctx):
     for i, steps in enumerate(hist):
         if i % desc['n'] == desc['shard']:
             run_case({'steps': steps}, ctx)
+    extra += [{'data': dd, 'md5': 'correct', 'prior': pr, 'good': 'good', 'head': 'ok', 'gzip': True}
+              for dd in (['corrupt', 'corrupt'], ['corrupt', 'good'], ['good'], ['corrupt']) for pr in ('absent', 'corrupt')]
     for i, c in enumerate(extra):
         if i % desc['n'] == desc['shard']:
             if c['data'][0].startswith('big'):
@@ -281,7 +292,7 @@ def run_case(case, ctx, shared=None):
         with open(out, 'wb') as f:
             f.write(prior_bytes)
     sc = {'data': list(case['data']), 'md5': list(case['md5']) if isinstance(case['md5'], list) else case['md5'],
-          'good': good, 'head': case['head'], 'served': [], 'md5_served': []}
+          'good': good, 'head': case['head'], 'served': [], 'md5_served': [], 'gzip': bool(case.get('gzip'))}
     with State.lock:
         State.scripts[path] = sc
     completes = []
